@@ -20,7 +20,10 @@ RULE = ('seeded scenarios: 1..4 queued messages drawn from {quote, backslash, '
         '</script>, JSON values, binary} x Accept-Encoding(14 shapes) x '
         'http_compression(2) x threshold in {0, size-1, size, size+1, 10^6} '
         '(size measured by a dry run) x JSONP index {none, 0, 7, 10^9} x '
-        'response kind {open, poll} x server(2). distinct = distinct '
+        'response kind {open, poll} x server(2), each on a fresh server; '
+        'plus sequences of 3..9 responses (small / long / open, changing '
+        'Accept-Encoding and JSONP index, two sessions) from ONE server '
+        'instance, every response judged by the same decoder. distinct = distinct '
         '(accept-encoding shape, compression, threshold position, jsonp, '
         'payload-character classes present, kind, server)')
 ASSUMPTIONS = ['"offered" = token present in Accept-Encoding with q absent or '
@@ -30,7 +33,7 @@ ASSUMPTIONS = ['"offered" = token present in Accept-Encoding with q absent or '
                'ECMA-262 (raw LF/CR illegal; U+2028/2029 legal since ES2019 '
                'and counted separately)']
 REQUIRED = ['decoded_responses', 'jsonp_evaluated', 'encoding_declared',
-            'threshold_edges']
+            'threshold_edges', 'sequence_responses']
 SHARD_TIMEOUT = {'quick': 300, 'thorough': 3000}
 
 AE = [None, 'gzip', 'deflate', 'gzip, deflate', 'deflate, gzip',
@@ -207,6 +210,16 @@ def run_case(rec, case):
             V('payload-differs-jsonp' if j is not None else
               'payload-differs', 'client decodes %r, the response carries %r' %
               ([repr(g)[:80] for g in got], [repr(w)[:80] for w in want]))
+    judge_encoding(rec, V, declared, ae, comp, ulen, thr)
+    if rec.evaluations % 401 == 1:
+        rec.sample({'server': srv, 'accept_encoding': ae, 'compression': comp,
+                    'threshold': tpos, 'j': j, 'kind': kind,
+                    'declared': declared,
+                    'messages': [gen.jsonable(m) if len(repr(m)) < 100
+                                 else '<long>' for m in msgs]})
+
+
+def judge_encoding(rec, V, declared, ae, comp, ulen, thr):
     on, off = offered(ae)
     if declared is not None:
         rec.count('encoding_declared')
@@ -221,12 +234,91 @@ def run_case(rec, case):
         if ulen < thr:
             V('encoding-below-threshold', 'Content-Encoding %r for a body of '
               '%d bytes, threshold %d' % (declared, ulen, thr))
-    if rec.evaluations % 401 == 1:
-        rec.sample({'server': srv, 'accept_encoding': ae, 'compression': comp,
-                    'threshold': tpos, 'j': j, 'kind': kind,
-                    'declared': declared,
-                    'messages': [gen.jsonable(m) if len(repr(m)) < 100
-                                 else '<long>' for m in msgs]})
+
+
+def run_sequence(rec, case):
+    """Several responses from ONE server instance: whatever an earlier
+    response did (was compressed, was JSONP, carried a cookie) must not show
+    in a later one."""
+    rng = gen.mkrng('c19seq', case['seed'], case['i'])
+    srv = rng.choice(['T', 'A'])
+    comp = rng.random() < 0.85
+    thr = rng.choice([0, 60, 200, 1024])
+    cookie = rng.choice([None, None, 'io'])
+    rec.evaluations += 1
+    steps = []
+
+    def V(key, msg):
+        rec.viol(key, msg + ' | SEQUENCE server=%s compression=%r '
+                 'threshold=%d cookie=%r responses so far=%r' % (
+                     srv, comp, thr, cookie, steps), case)
+    sim = scen.make_sim(srv, server_kwargs={
+        'http_compression': comp, 'compression_threshold': thr,
+        'cookie': cookie})
+    try:
+        hs = [sim.open_polling(), sim.open_polling()]
+        if any(h.sid is None for h in hs):
+            V('response-failed', 'open failed')
+            return
+        rec.count('sequences')
+        for k in range(rng.randint(3, 9)):
+            ae = rng.choice(AE)
+            j = rng.choice([None, None, '0', '7'])
+            hd = {} if ae is None else {'Accept-Encoding': ae}
+            q = {'j': j} if j is not None else None
+            kind = rng.choice(['poll', 'poll', 'poll', 'open'])
+            if kind == 'open':
+                h = sim.open_polling(q, headers=hd)
+                t, msgs = h.open_ticket, None
+                size = 'open'
+            else:
+                h = rng.choice(hs)
+                size = rng.choice(['small', 'small', 'long'])
+                msgs = ['s%d:%s' % (k, CHARS[rng.choice(sorted(CHARS))])]
+                if size == 'long':
+                    msgs.append('L%d:' % k + 'y"\\\n' * rng.randint(300, 600))
+                for m in msgs:
+                    sim.app_call('send', h.sid, m)
+                sim.quiesce()
+                t = sim.poll(h, q, headers=hd)
+                sim.quiesce()
+            steps.append((kind, size, ae, j))
+            if not t.done or t.code != 200:
+                V('response-failed', 'answered %r exc=%r' % (t.status, t.exc))
+                return
+            rec.count('decoded_responses')
+            rec.count('sequence_responses')
+            res = decode_response(t, j, rec, V)
+            if res is None:
+                return
+            pk, ulen, declared = res
+            steps[-1] = steps[-1] + (declared,)
+            if kind == 'open':
+                if not pk or pk[0][0] != 0 or not isinstance(pk[0][1], dict):
+                    V('open-lost', 'open response decodes to %r' % (pk[:2],))
+            else:
+                got = [d for tp, d in pk if tp == 4]
+                if got != msgs:
+                    V('payload-differs-jsonp' if j is not None else
+                      'payload-differs', 'client decodes %r, the response '
+                      'carries %r' % ([repr(g)[:60] for g in got],
+                                      [repr(w)[:60] for w in msgs]))
+            judge_encoding(rec, V, declared, ae, comp, ulen, thr)
+            ct = t.header_all('Content-Type')
+            if len(ct) != 1:
+                V('content-type-count', 'Content-Type headers %r' % (ct,))
+        rec.key('seq/%s/%s/%s/%s' % (srv, comp, thr, '+'.join(
+            '%s%s%s' % (st[0][0], st[1][0], 'c' if st[-1] else '-')
+            for st in steps if len(st) == 5)))
+    finally:
+        sim.teardown()
+
+
+def dispatch(rec, case):
+    if case.get('seq'):
+        run_sequence(rec, case)
+    else:
+        run_case(rec, case)
 
 
 def plan(tier, seed):
@@ -239,8 +331,11 @@ def run_shard(spec):
     rec = Rec()
     cases = [{'seed': spec['seed'], 'i': spec['shard'] * 1000000 + k}
              for k in range(spec['n'])]
-    scen.run_cases(rec, cases, run_case)
+    # one in six cases is a sequence of responses from one server instance
+    cases += [{'seed': spec['seed'], 'i': spec['shard'] * 1000000 + k,
+               'seq': True} for k in range(spec['n'] // 6)]
+    scen.run_cases(rec, cases, dispatch)
     return rec.result()
 
 
-replay = scen.simple_replay(run_case)
+replay = scen.simple_replay(dispatch)
